@@ -149,7 +149,7 @@ class BondAnnuity:
         dc = DayCount(self.dc_type)
 
         (acc_factor, num, _) = dc.year_frac(
-            self.pcd, settle_dt, self.ncd, self.freq
+            self.pcd, settle_dt, self.ncd, self.freq_type
         )
 
         self.alpha = 1.0 - acc_factor * self.freq
